@@ -36,6 +36,19 @@ MATCHES = Function("MATCHES", RE, Str, B)    # compiled.match(name) is not None
 REESC = Function("REESC", Str, Str)          # re.escape(char)
 IGNORECASE = Const("re_IGNORECASE", I)
 BOR = Function("BOR", I, I, I)               # a | b on ints
+from z3 import Datatype, BoolSort
+_Row = Datatype("Row")
+_Row.declare("Row", ("pre", Str), ("fill", Str), ("node", R))
+Row = _Row.create()                          # render.Row(pre, fill, node)
+_LP = Datatype("LastPair")
+_LP.declare("LastPair", ("item", R), ("last", B))
+LastPair = _LP.create()                      # (item, is_last) pairs of render._is_last
+SeqRow = SeqSort(Row)
+SeqLP = SeqSort(LastPair)
+SeqBool = SeqSort(BoolSort())
+SeqFn = DeclareSort("SeqFn")                 # childiter: sequence of nodes -> sequence of nodes
+appSeq = Function("appSeq", SeqFn, SeqR, SeqR)
+JOINSEG = Function("JOINSEG", SeqBool, I, Str, Str, Str)   # "".join(a if c else b for c in flags[:j])
 CmpFn = DeclareSort("CmpFn")               # string comparison callback (Resolver.__cmp / Resolver.__match)
 UFn2 = DeclareSort("UFn2")                 # user callback (node, child) -> value
 appU = Function("appU", UFn, R, U)
@@ -124,6 +137,8 @@ class TextExec(SeqExec):
             yield p, self.reg.globals[name]
         elif name == "re":
             yield p, V("module", "re")
+        elif name == "Row":
+            yield p, V("class", "Row")
         else:
             yield from SeqExec.global_name(self, name, p)
 
@@ -157,6 +172,8 @@ class TextExec(SeqExec):
         yield from SeqExec.e_Lambda(self, e, p)
 
     def truth(self, v, p, e=None):
+        if v.k == "bseq":
+            return Length(v.t) > 0
         if v.k in ("optufn", "optufn2"):
             return v.t[0]
         if v.k == "optseq":
@@ -196,6 +213,12 @@ class TextExec(SeqExec):
         return SeqExec.compare_other(self, op, l, r, p, e)
 
     def binop(self, op, l, r, p, e):
+        if isinstance(op, ast.Add) and l.k == "bseq" and r.k == "tuple" and all(x.k == "bool" for x in r.t):
+            t_ = l.t
+            for x in r.t:
+                t_ = Concat(t_, Unit(x.t))
+            yield p, V("bseq", t_)
+            return
         if isinstance(op, ast.Mod) and l.k == "pystr":
             args = list(r.t) if r.k == "tuple" else [r]
             yield p, vstr(percent_format(l.t, args))
@@ -242,6 +265,12 @@ class TextExec(SeqExec):
             p.assume(PAR(ROOT(obj.t)) == NONE, ROOT(obj.t) != NONE)
             yield p, vref(ROOT(obj.t))
             return
+        if obj.k in ("str", "pystr") and attr == "join":
+            yield p, V("strmethod", (obj, "join"))
+            return
+        if obj.k == "row" and attr in ("pre", "fill", "node"):
+            yield p, (vstr(getattr(Row, attr)(obj.t)) if attr != "node" else vref(Row.node(obj.t)))
+            return
         if obj.k in ("str", "pystr") and attr in ("split", "startswith", "upper"):
             yield p, V("strmethod", (obj, attr))
             return
@@ -269,12 +298,52 @@ class TextExec(SeqExec):
             raise Unsupported("attribute .%s of %s object" % (attr, cls))
         yield from SeqExec.attr_load(self, obj, attr, p, e)
 
+    def e_ListComp(self, e, p):
+        # [A if c else B for c in flags]  over a tuple of booleans: kept symbolic until it is joined
+        if len(e.generators) == 1 and not e.generators[0].ifs and isinstance(e.generators[0].target, ast.Name) \
+                and isinstance(e.elt, ast.IfExp) and isinstance(e.elt.test, ast.Name) and e.elt.test.id == e.generators[0].target.id:
+            for q, fl in self.ev(e.generators[0].iter, p):
+                if fl.k != "bseq":
+                    raise Unsupported("comprehension over %r" % (fl,))
+                for q2, (a, b) in self.evs2(e.elt.body, e.elt.orelse, q):
+                    yield q2, V("segs", (fl.t, Length(fl.t), tostr(a), tostr(b)))
+            return
+        yield from SeqExec.e_ListComp(self, e, p)
+
+    def slice_load(self, obj, lo, hi, p, e):
+        if obj.k == "segs" and lo is None and hi is not None and hi.k == "int":
+            fl, n, a, b = obj.t
+            h = If(hi.t < 0, hi.t + n, hi.t)
+            yield p, V("segs", (fl, If(h < 0, 0, If(h > n, n, h)), a, b))
+            return
+        if obj.k == "qseq" and (obj.x or {}).get("elem") == "str":
+            s = obj.t
+            n = Length(s)
+
+            def norm(v, default):
+                if v is None:
+                    return default
+                t_ = If(v.t < 0, v.t + n, v.t)
+                return If(t_ < 0, 0, If(t_ > n, n, t_))
+            a, b = norm(lo, IntVal(0)), norm(hi, n)
+            from z3 import Extract
+            yield p, V("qseq", Extract(s, a, If(b > a, b - a, 0)), {"elem": "str"})
+            return
+        yield from SeqExec.slice_load(self, obj, lo, hi, p, e)
+
     def cache_key(self, key):
         if key.k == "tuple" and len(key.t) == 2 and key.t[0].k in ("str", "pystr") and key.t[1].k == "bool":
             return KEY(tostr(key.t[0]), key.t[1].t)
         raise Unsupported("cache key %r (the contract expects the pair (pattern, ignorecase))" % (key,))
 
     def subscript_load(self, obj, key, p, e):
+        if obj.k == "bseq" and key.k == "int":
+            s = obj.t
+            idx = If(key.t < 0, key.t + Length(s), key.t)
+            self.oblig(p, "SAFE", "index", And(0 <= idx, idx < Length(s)), note="no IndexError")
+            p.assume(0 <= idx, idx < Length(s))
+            yield p, vbool(s[idx])
+            return
         if obj.k == "cache":
             k = self.cache_key(key)
             dom, val, n = p.extra["cache"]
@@ -335,6 +404,12 @@ class TextExec(SeqExec):
         return SeqExec.assign(self, tgt, v, p, aug)
 
     def yield_value(self, p, v):
+        if v.k == "row":
+            p.out = Concat(p.out, Unit(v.t))
+            return
+        if v.k == "tuple" and len(v.t) == 2 and v.t[0].k == "ref" and v.t[1].k == "bool" and p.out.sort() == SeqLP:
+            p.out = Concat(p.out, Unit(LastPair.LastPair(v.t[0].t, v.t[1].t)))
+            return
         if v.k in ("str", "pystr"):
             p.out = Concat(p.out, Unit(tostr(v)))
         elif v.k == "tuple" and p.out.sort() == SeqSort(self.reg.rowsort) if getattr(self.reg, "rowsort", None) is not None else False:
@@ -350,6 +425,21 @@ class TextExec(SeqExec):
         return SeqExec.seqterm(self, v, p)
 
     def as_iterseq(self, v, p):
+        if v.k == "bseq":
+            s = v.t
+            sq = IterSeq(Length(s), lambda i: vbool(s[i]), desc="flags")
+            sq.term, sq.elem = s, "bool"
+            return sq
+        if v.k in ("qseq", "gen") and (v.x or {}).get("elem") == "lastpair":
+            s = self.seqterm(v, p)
+            sq = IterSeq(Length(s), lambda i: V("tuple", (vref(LastPair.item(s[i])), vbool(LastPair.last(s[i])))), desc="pairs")
+            sq.term, sq.elem = s, "lastpair"
+            return sq
+        if v.k in ("qseq", "gen") and (v.x or {}).get("elem") == "row":
+            s = self.seqterm(v, p)
+            sq = IterSeq(Length(s), lambda i: V("row", s[i]), desc="rows")
+            sq.term, sq.elem = s, "row"
+            return sq
         if v.k in ("optseq", "useq"):
             s = self.seqterm(v, p)
             sq = IterSeq(Length(s), lambda i: V("any", s[i]), desc="useq")
@@ -377,6 +467,10 @@ class TextExec(SeqExec):
         if fv.k == "strmethod":
             s, m = fv.t
             st = tostr(s)
+            if m == "join" and len(pos) == 1 and pos[0].k == "segs" and s.k == "pystr" and s.t == "":
+                fl, n, a, b = pos[0].t
+                yield p, vstr(JOINSEG(fl, n, a, b))
+                return
             if m == "upper" and not pos:
                 yield p, vstr(UPPER(st))
             elif m == "startswith" and len(pos) == 1:
@@ -389,6 +483,16 @@ class TextExec(SeqExec):
                 yield p, V("qseq", sp, {"elem": "str"})
             else:
                 raise Unsupported("str.%s" % m)
+            return
+        if fv.k == "class" and fv.t == "Row":
+            if len(pos) != 3 or pos[2].k != "ref":
+                raise Unsupported("Row(...) arguments")
+            yield p, V("row", Row.Row(tostr(pos[0]), tostr(pos[1]), pos[2].t))
+            return
+        if fv.k == "seqfn":
+            if len(pos) != 1 or pos[0].k != "qseq":
+                raise Unsupported("childiter call")
+            yield p, qseq(appSeq(fv.t, pos[0].t))
             return
         if fv.k == "refn":
             if fv.t == "escape" and len(pos) == 1:
@@ -477,6 +581,19 @@ class TextExec(SeqExec):
             if v.k == "qseq" and (v.x or {}).get("elem") == "str":
                 return v
             raise Unsupported("list of strings from %r" % (v,))
+        if kind == "bseq":
+            if v.k == "bseq":
+                return v
+            if v.k == "qseq" and v.t.eq(Empty(SeqR)):
+                return V("bseq", Empty(SeqBool))      # tuple()
+            if v.k == "tuple" and all(x.k == "bool" for x in v.t):
+                t_ = Empty(SeqBool)
+                for x in v.t:
+                    t_ = Concat(t_, Unit(x.t))
+                return V("bseq", t_)
+            raise Unsupported("tuple of booleans from %r" % (v,))
+        if kind.startswith("obj:") and v.k == "obj":
+            return v
         if kind == "any":
             return V("any", toany(v)) if v.k != "any" else v
         return SeqExec.coerce(self, v, kind, p)
@@ -563,8 +680,10 @@ class TextExec(SeqExec):
         return SeqExec.fresh_of_kind(self, kind, name)
 
     def fresh_like(self, v, name):
-        if v.k in ("ufn", "ufn2", "optufn", "optufn2", "optseq", "useq", "iddict", "counter", "id", "cmpfn", "module", "refn"):
+        if v.k in ("ufn", "ufn2", "optufn", "optufn2", "optseq", "useq", "iddict", "counter", "id", "cmpfn", "module", "refn", "seqfn"):
             return v
+        if v.k == "bseq":
+            return V("bseq", Const(fresh(name), SeqBool))
         if v.k == "pystr":
             return self.fresh_of_kind("str", name)
         if v.k == "re":
@@ -600,6 +719,10 @@ class TextWorld(SeqWorld):
             return V("any", Const("arg_" + n, U))
         if k == "strlist":
             return V("qseq", Const("arg_" + n, SeqStr), {"elem": "str"})
+        if k == "bseq":
+            return V("bseq", Const("arg_" + n, SeqBool))
+        if k.startswith("obj:") and n != "self":
+            return V("obj", n, k[4:])
         if k == "cmpfn":
             return V("cmpfn", Const("arg_" + n, CmpFn))
         return SeqWorld.make_arg(self, n, k)
@@ -608,6 +731,10 @@ class TextWorld(SeqWorld):
         return SeqWorld.arg_facts(self, args, spec) + list(TEXT_AXIOMS)
 
     def empty_out(self, spec):
+        if spec.yields == "rows":
+            return Empty(SeqRow)
+        if spec.yields == "lastpairs":
+            return Empty(SeqLP)
         if spec.yields == "str":
             return EMPTYL
         if spec.yields == "row":
@@ -615,6 +742,10 @@ class TextWorld(SeqWorld):
         return SeqWorld.empty_out(self, spec)
 
     def gen_value(self, p):
+        if p.out.sort() == SeqRow:
+            return V("qseq", p.out, {"elem": "row"})
+        if p.out.sort() == SeqLP:
+            return V("qseq", p.out, {"elem": "lastpair"})
         if p.out.sort() == SeqStr:
             return V("qseq", p.out, {"elem": "str"})
         return SeqWorld.gen_value(self, p) if p.out.sort() != SeqSort(getattr(self, "_rows", Str)) else V("qseq", p.out, {"elem": "row"})
@@ -629,6 +760,8 @@ class TextWorld(SeqWorld):
             return value.k in ("qseq", "gen")
         if want == "str":
             return value.k in ("str", "pystr")
+        if want == "row":
+            return value.k == "row"
         if want == "tuple":
             return value.k == "tuple"
         if want == "ref":
